@@ -375,7 +375,12 @@ func c12lRun(plan *C12LPlan) (res c12lResult) {
 	}
 	nOwn := 3 * len(plan.Peers)
 	for k := 0; k < nOwn; k++ {
-		specs = append(specs, TxSpec{Ins: []TxInSpec{{Fund: 300 + k}}, Rel: k % 6})
+		sp := TxSpec{Ins: []TxInSpec{{Fund: 300 + k}}, Rel: k % 6}
+		if k%2 == 1 {
+			// a double spend of a transaction the trusted peer announces and later mines
+			sp.Ins = []TxInSpec{{Fund: 100 + k%plan.Mine}}
+		}
+		specs = append(specs, sp)
 	}
 	all := txUniverse(specs, fetch)
 	minedTxs, ownTxs := all[:plan.Mine], all[plan.Mine:]
@@ -417,6 +422,9 @@ func c12lRun(plan *C12LPlan) (res c12lResult) {
 		return fail("C12/harness/listen", err.Error())
 	}
 	defer lp.shutdown()
+	// the trusted peer announces the transactions it will mine, one every 40 ms once in sync
+	lp.txStream = append([]*wire.MsgTx{}, minedTxs...)
+	lp.streamOn = true
 
 	store := verifkit.NewMemStore(true)
 	ctx := quietCtx()
@@ -693,7 +701,7 @@ func genC12L(t *rapid.T) *C12LPlan {
 	return p
 }
 
-const c12lRule = "live plans: real Run and real UntrustedNode.Run over loopback sockets; 1-3 scripted untrusted peers per plan (on the node's chain, on an alien chain, or never answering the header request) run generated scripts of inventory floods (up to 6 x 50 000 items), offered and pushed transactions only they know, blocks carrying the header of a block the trusted peer is about to announce with a forged body, headers of a longer fork, address floods, garbage frames (bad checksum, bad magic, absurd length, random bytes, half a message then close, unparsable payload), stopping to read, closing; one plan in six is a two-peer back-pressure profile (announce shared txids and never deliver, stop reading, make the node queue hundreds of requests, show activity again after the 3 s request window); meanwhile the trusted peer mines 2-5 blocks; each batch runs in a child process; oracle: the node process survives, reaches the trusted peer's tip within 8 s after the scripts, holds exactly the trusted chain, delivers nothing that only an unverified peer supplied, and reports nothing only an untrusted peer supplied as safe or confirmed; non-trivial = an untrusted peer got as far as the header request; distinct by plan hash"
+const c12lRule = "live plans: real Run and real UntrustedNode.Run over loopback sockets; 1-3 scripted untrusted peers per plan (on the node's chain, on an alien chain, or never answering the header request) run generated scripts of inventory floods (up to 6 x 50 000 items), offered and pushed transactions only they know (half of them double spends of transactions the trusted peer announces and then mines), blocks carrying the header of a block the trusted peer is about to announce with a forged body, headers of a longer fork, address floods, garbage frames (bad checksum, bad magic, absurd length, random bytes, half a message then close, unparsable payload), stopping to read, closing; one plan in six is a two-peer back-pressure profile (announce shared txids and never deliver, stop reading, make the node queue hundreds of requests, show activity again after the 3 s request window); meanwhile the trusted peer mines 2-5 blocks; each batch runs in a child process; oracle: the node process survives, reaches the trusted peer's tip within 8 s after the scripts, holds exactly the trusted chain, delivers nothing that only an unverified peer supplied, and reports nothing only an untrusted peer supplied as safe or confirmed; non-trivial = an untrusted peer got as far as the header request; distinct by plan hash"
 
 func c12lNontrivial(f map[string]bool) bool { return f["untrusted-handshake-reached"] }
 
